@@ -103,12 +103,13 @@ func declaredByPath(a *builtArchive, recursive bool) map[string][]uint64 {
 	return m
 }
 
-func oracle(r *h.Run, sc *scenario, ba *builtArchive, fp *footprint, declared map[string][]uint64, o observation) {
+func oracle(r *h.Run, sc *scenario, ba *builtArchive, fp *footprint, declared map[string][]uint64, o observation, tag string) {
 	l := sc.Limits
 	mode := "flat"
 	if l.Recursive {
 		mode = "recursive"
 	}
+	mode += tag // which entry point was driven ("" = the method on the in-memory back end)
 	// (1) at no moment is a single file larger than the per-file limit, or longer than the size its header declares, written
 	seen := map[string]int{}
 	for _, w := range o.Writes {
